@@ -695,7 +695,14 @@ class RemoteWorker(Worker, metaclass=RemoteWorkerMeta):
                 result = (False, sys.exc_info()[1])
             self._cleanup()
             logger.debug('Sending result')
-            send_msg(self._socket, result, 'data: result')
+            try:
+                send_msg(self._socket, result, 'data: result')
+            except ConnectionClosedError:
+                raise
+            except Exception as e:
+                # the result (or the error) cannot be pickled: nothing has left yet, report that instead
+                logger.exception('Could not send the result')
+                send_msg(self._socket, (False, e), 'data: result')
             send_msg(self._socket, self._user_state, 'data: user state')
             logger.debug('Closing down backend-side socket')
             self._socket.shutdown(socket.SHUT_WR)
